@@ -53,6 +53,7 @@ type Task struct {
 	done    bool
 	started bool
 	prio    int
+	goid    uint64 // id of the goroutine that runs the task
 	// blockedAt is the value of Sched.progress when the task last found a
 	// lock taken; it is not scheduled again before somebody else has run.
 	blockedAt int64
@@ -98,6 +99,7 @@ type Sched struct {
 	Watchdog   time.Duration
 	progress   int64 // hand-offs that were not "lock taken"
 	LockWaits  int   // times a task found a lock taken and was descheduled
+	Foreign    int   // hand-off points reached by goroutines that are not simulation tasks
 	allBlocked int
 }
 
@@ -148,8 +150,34 @@ func (s *Sched) Yield(site uint32) {
 	if s.countdown > 0 && s.Steps < s.Cfg.MaxSteps {
 		return
 	}
+	// A goroutine the library started itself (a changed library may
+	// parallelise an operation) also passes yield points, but it is not a
+	// simulation task: it must never be parked in the task's place.  The
+	// check costs a stack header parse, so it is made only here, where a
+	// hand-off is about to happen.
+	if curGoid() != t.goid {
+		s.Foreign++
+		return
+	}
 	s.lastSite = site
 	s.handoff(t, evYield)
+}
+
+// curGoid returns the id of the calling goroutine.
+//
+//go:norace
+func curGoid() uint64 {
+	var buf [40]byte
+	n := runtime.Stack(buf[:], false)
+	// "goroutine 123 ["
+	var id uint64
+	for _, c := range buf[len("goroutine "):n] {
+		if c < '0' || c > '9' {
+			break
+		}
+		id = id*10 + uint64(c-'0')
+	}
+	return id
 }
 
 // Blocked is the hook of the cooperative Lock: the current task found the
@@ -165,6 +193,11 @@ func (s *Sched) Blocked(site uint32) {
 	}
 	t := s.cur
 	if t == nil {
+		runtime.Gosched()
+		return
+	}
+	if curGoid() != t.goid {
+		s.Foreign++
 		runtime.Gosched()
 		return
 	}
@@ -218,6 +251,7 @@ func (s *Sched) finish(t *Task) {
 }
 
 func (s *Sched) taskBody(t *Task) {
+	t.goid = curGoid()
 	raceDisable()
 	<-t.wake
 	raceEnable()
